@@ -33,6 +33,17 @@ def run(tier: str, seed: int, reg: Any, jobs: int = 16) -> list:
             for s in img.sub_images:
                 for k, b in enumerate(s.binary or b""):
                     want[base + s.offset + k] = b
+            if rnd.random() < 0.4:
+                # a node that has its own binary, a fill pattern and is longer than that binary (explicit size / alignment): every format must
+                # hold exactly the bytes export() gives, fill included
+                from spsdk.utils.misc import BinaryPattern
+
+                own = bytes(rnd.getrandbits(8) | 1 for _ in range(rnd.choice([3, 10, 33])))
+                img = BinaryImage("root", offset=base, binary=own, size=rnd.choice([0, len(own) + rnd.choice([1, 6, 40])]), alignment=rnd.choice([1, 4, 16]),
+                                  pattern=BinaryPattern(rnd.choice(["ones", "0xA5", "inc"])))
+                if base + len(img) >= (1 << 32):
+                    continue
+                want = {base + k: b for k, b in enumerate(img.export())}
             for fmt in ("BIN", "HEX", "S19"):
                 n += 1
                 path = os.path.join(d, f"img.{fmt.lower()}")
